@@ -713,7 +713,7 @@ class C18Engine(Engine):
     quick_budget_s = 150.0
     thorough_budget_s = 1500.0
     chunk = 20
-    run_timeout_s = 240.0
+    run_timeout_s = 600.0
     determinism_sample = 8
     needs_pristine_parent = True
     rule = ("One run = a program of <= 14 save / read / decode / optical-write / correction-save / correction-read steps on "
